@@ -37,7 +37,7 @@ RULE = ("program = seeded render-class tree + namespace classes; history = <= ma
 PROBES = ["interned_default_returned", "init_returned_itself", "incompatible_init_rejected",
           "incompatible_namespace_rejected", "convert_to_parent_drops_namespaces",
           "ror_used", "equal_sets_hash_equal", "negative_namespace_definition",
-          "last_namespace_wins"]
+          "last_namespace_wins", "inheriting_namespace_subclass"]
 COMPONENTS = {
     "real": ["RenderArgs (__new__/__init__ interning, update, convert, __eq__, __hash__, "
              "__contains__, __getitem__)", "ArgsNamespace (__or__, __ror__, __pos__, update, "
@@ -66,7 +66,8 @@ def run(ch, ctx, fault=None):
             name = "C%d" % len(classes)
             cls = type(base)(name, (base,), {
                 "_get_render_size_": lambda self: None, "_render_": lambda self, a, b: None})
-            d = {"cls": cls, "parent": parent_idx, "fields": None, "Args": None, "name": name}
+            d = {"cls": cls, "parent": parent_idx, "fields": None, "Args": None, "ArgsSub": None,
+                 "name": name}
             if ch.bool("has_args", 0.65):
                 nf = ch.int("n_fields", 1, 3)
                 fields = {"f%d" % j: ch.int("default", 0, 3) for j in range(nf)}
@@ -75,6 +76,11 @@ def run(ch, ctx, fault=None):
                 d["Args"] = type(ArgsNamespace)(name + "Args", (ArgsNamespace,), ns,
                                                 render_cls=cls)
                 d["fields"] = fields
+                # a namespace subclass that merely inherits the fields (and the association)
+                # is the same kind of namespace as far as every law is concerned
+                d["ArgsSub"] = None
+                if ch.bool("ns_subclass", 0.4):
+                    d["ArgsSub"] = type(ArgsNamespace)(name + "ArgsSub", (d["Args"],), {})
             classes.append(d)
             return len(classes) - 1
 
@@ -206,19 +212,23 @@ def run(ch, ctx, fault=None):
                 names = list(fields)
                 vals = {n: ch.int("val", 0, 4) for n in names if ch.bool("give", 0.6)}
                 positional = ch.bool("positional", 0.4)
+                ns_cls = classes[i]["Args"]
+                if classes[i]["ArgsSub"] is not None and ch.bool("use_sub", 0.5):
+                    ns_cls = classes[i]["ArgsSub"]
+                    ctx.probe("inheriting_namespace_subclass")
                 if positional:
                     npos = ch.int("npos", 0, len(names))
                     pos = [vals.get(n, fields[n]) for n in names[:npos]]
                     kw = {n: v for n, v in vals.items() if n not in names[:npos]}
-                    obj = classes[i]["Args"](*pos, **kw)
+                    obj = ns_cls(*pos, **kw)
                     model = dict(fields)
                     model.update(dict(zip(names[:npos], pos)))
                     model.update(kw)
                 else:
-                    obj = classes[i]["Args"](**vals)
+                    obj = ns_cls(**vals)
                     model = dict(fields)
                     model.update(vals)
-                desc = "%sArgs(%s) -> %s" % (classes[i]["name"], vals, model)
+                desc = "%s(%s) -> %s" % (ns_cls.__name__, vals, model)
                 add_ns(obj, i, model, desc)
             elif op == "ns_update":
                 if not nss:
@@ -389,6 +399,9 @@ def run(ch, ctx, fault=None):
                     add_ra(res[1], t, exp, desc)
             elif op == "eq_hash":
                 a, b = ch.pick("a", ras), ch.pick("b", ras)
+                twins = [r for r in ras if r[0] is not a[0] and r[1] == a[1] and r[2] == a[2]]
+                if twins and ch.bool("twin", 0.6):
+                    b = ch.pick("twin_of_a", twins)     # equal by the model, built another way
                 used_old = True
                 eq_model = a[1] == b[1] and a[2] == b[2]
                 desc = "compare RenderArgs(%s %s) with RenderArgs(%s %s)" % (
@@ -401,6 +414,9 @@ def run(ch, ctx, fault=None):
                           "hash")
                 if nss and len(nss) > 1:
                     x, y = ch.pick("x", nss), ch.pick("y", nss)
+                    twins = [n for n in nss if n[0] is not x[0] and n[1] == x[1] and n[2] == x[2]]
+                    if twins and ch.bool("twin", 0.6):
+                        y = ch.pick("twin_of_x", twins)
                     eqm = x[1] == y[1] and x[2] == y[2]
                     check((x[0] == y[0]) == eqm, "namespace_equality_differs_from_model",
                           {"x": x[2], "y": y[2]}, "eq")
